@@ -61,6 +61,10 @@ CLAIMS = {
          'StateMachine::Impl under CBMC contracts, one level at a time with child-view contracts for the nested machine: rejected calls change nothing; events go to the active sub-machine until it terminated; handler pick, else first route in registration order whose event matches and whose guard holds (guards evaluated only for matching routes, in order, once); exit, route action, enter, notification, sub start/run in that order exactly once each; re-entrancy guard restored on every path; start/stop balanced including the sub-machine.',
          'Trusted: printer, CBMC, opaque std::map stubs, callback stubs, one assume instantiating a quantified precondition. run is checked for states with at most 8 routes. The whole-hierarchy trace equality is the induction over these contracts (paper).',
          'CBMC function/loop contracts with child-view contracts and call-order ghosts on mechanically extracted C', '6 C16'),
+ 'C17': ('other',
+         'Action life cycle and serial-composite bookkeeping under unbounded CBMC contracts, against contract stubs for the virtual hooks: each transition only from the states that allow it; an action finishes at most once per run; stop sets the state before the hook, withdraws queued notifications and runs the final hook once; reset leaves the action like a fresh one; a child finish clears the running child in every state, is handled / held back / dropped by state; a held-back result re-posted on resume is withdrawn by stop and reset; a sequence resets every child exactly once.',
+         'Trusted: printer, CBMC, hook/loop/timer stubs. The control-flow meaning of whole action trees is not decided (per-function contracts only).',
+         'CBMC function/loop contracts with call-order ghosts on mechanically extracted C', '6 C17'),
  'C18': ('other',
          'Coroutine Semaphore, Mutex and Channel<int> under unbounded CBMC contracts: a routine is queued before every wait and re-checks after every wake-up; every release / unlock / send makes the resource available first and then wakes one live waiter (stale tokens skipped) whatever the count or queue length; semaphore count never negative; mutex taken only when seen free, re-entrant for the holder, unlocked only by the holder; channel reads the front, appends at the back.',
          'Trusted: printer, CBMC, Scheduler stubs (wait = other routines run), size-only queue model. The scheduler, Condition/Broadcast and the whole-run induction are not covered.',
